@@ -306,6 +306,8 @@ public:
         J.attribute("field", ME->getMemberDecl()->getNameAsString());
         J.attribute("arrow", ME->isArrow());
         J.attribute("fcls", declClass(ME->getMemberDecl()));
+        if (auto *FD = dyn_cast<FieldDecl>(ME->getMemberDecl()))
+          J.attribute("fidx", (int64_t)FD->getFieldIndex());
         if (auto *RD = dyn_cast<RecordDecl>(ME->getMemberDecl()->getDeclContext()))
           J.attribute("rec", RD->getNameAsString());
       } else if (auto *CE = dyn_cast<CallExpr>(S)) {
